@@ -32,6 +32,7 @@ func init() {
 		p.EmbedPct = 40
 		p.MultiRefPct = 15
 		p.GopathPct = 12
+		p.SameAliasPct = 10
 	}), Oracle: oracle.C11}
 	Props["C12"] = &PropDef{Profile: prof("C12", func(p *gen.Profile) {
 		p.AdvNames = true
@@ -56,7 +57,11 @@ func init() {
 		p.AdvNames = true
 		p.OutFilePct = 0
 		p.MultiRefPct = 45
-		p.ShadowPct = 45
+		p.ShadowPct = 60
+		p.MaxIfaces = 2
+		p.MaxMethods = 3
+		p.AliasPct = 40
+		p.SameAliasPct = 30
 	}), Oracle: oracle.C14}
 	Props["C16"] = &PropDef{Profile: prof("C16", func(p *gen.Profile) { p.OutFilePct = 0; p.MaxParams = 6 }), Mutate: c16Mutate, Oracle: oracle.C16}
 	Props["C19"] = &PropDef{Profile: prof("C19", func(p *gen.Profile) {
